@@ -12,6 +12,7 @@ import (
 	"math"
 	"strings"
 	"sync"
+	"unsafe"
 
 	"github.com/advancedclimatesystems/gonnx"
 	"github.com/advancedclimatesystems/gonnx/onnx"
@@ -104,6 +105,33 @@ func execDecodeCase(c *Case) []ModeResult {
 			return valueObs([]tensor.Tensor{t})
 		})
 		res = append(res, ModeResult{"TensorFromProto:empty-typed-fields", Verdict(c, a2), a2.Short()})
+		// the payload starts at every address modulo 8 (a sub-slice of a larger buffer - a memory-mapped file, a container format):
+		// decoding is a function of the bytes, not of where they lie
+		if len(x.Raw) > 0 {
+			for off := 1; off < 8; off++ {
+				a3 := guard(func() Observation {
+					tp := mkProtoX(x, "w")
+					buf := make([]byte, len(tp.RawData)+16)
+					base := 0
+					for (uintptr(unsafe.Pointer(&buf[base]))+uintptr(off))%8 != uintptr(off) {
+						base++
+					}
+					copy(buf[base+off:], tp.RawData)
+					tp.RawData = buf[base+off : base+off+len(tp.RawData) : base+off+len(tp.RawData)]
+					t, err := onnx.TensorFromProto(tp)
+					if err != nil {
+						return observeErr(err)
+					}
+					return valueObs([]tensor.Tensor{t})
+				})
+				if v := Verdict(c, a3); v != "pass" && !strings.HasPrefix(v, "known:") {
+					res = append(res, ModeResult{fmt.Sprintf("TensorFromProto:raw-data-at-address-%d-mod-8", off), v, a3.Short()})
+					break
+				} else if off == 7 {
+					res = append(res, ModeResult{"TensorFromProto:raw-data-at-every-address-mod-8", v, a3.Short()})
+				}
+			}
+		}
 	}
 	b := guard(func() Observation {
 		// a well-formed initializer follows: the outcome of the first must not depend on it
